@@ -1,0 +1,20 @@
+//go:build verif
+
+package lazy
+
+// VerifCapacity exposes the byte capacity of the cache, its row width and the
+// size of its largest state (row + map entry + list slot + NFA state set), so
+// that an external monitor can check "memory usage <= capacity + one state".
+// Compiled only with -tags verif.
+func (c *DFACache) VerifCapacity() (capacityBytes, stride, largestStateBytes int) {
+	const perState = 4*0 + 8 + 48 // list slot + map entry, as in MemoryUsage
+	largest := 0
+	for _, s := range c.stateList {
+		if s != nil {
+			if n := len(s.NFAStates())*4 + len(s.AccelExitBytes()); n > largest {
+				largest = n
+			}
+		}
+	}
+	return c.capacityBytes, c.stride, largest + c.stride*4 + perState
+}
